@@ -5,7 +5,7 @@ import subprocess
 
 from engines import effects, arms, wire
 from engines.paths import enumerate_paths, classify_return, emptiness_of
-from engines.prog import cname, term_str
+from engines.prog import cname, term_str, place_fields
 from engines import terms as T
 from engines.terms import Aff
 from spec import coldef as SPEC
@@ -69,6 +69,13 @@ def run(ctx):
             if b.raw.get("name") in ("new",) or (b.raw.get("sig_in") and not b.raw["sig_in"][0].startswith(("&", ty)) and b.raw.get("sig_out", "").find(ty) >= 0):
                 ctx.ob("C03.linear-api", b.raw.get("vis") != "Public", "%s is a public constructor of %s" % (b.path, ty), fn=b.path, construct="constructor")
 
+    # ---- status packets ----------------------------------------------------------------------
+    # the more-results chain is carried by the status word of the OK / EOF packets: its position is part of this property
+    ctx.rule("C03.status-packets", "OK and EOF packet layouts: the status word (more-results bit) sits where clients read it")
+    import rules.C14 as C14
+    C14.ok_layout(ctx, prog, "C03.status-packets")
+    C14.eof_layout(ctx, prog, "C03.status-packets")
+
     # ---- finalize-first ----------------------------------------------------------------------
     fin = prog.one(r"^resultset::QueryResultWriter::<'a, W>::finalize$")
     ctx.fn(fin)
@@ -97,6 +104,31 @@ def run(ctx):
             ctx.ob("C03.finalize-first", ok, "%s: the first connection write is %s (need finalize(%s) first)" % (m, (ev[0][3] + "(" + term_str(p.arg(ev[0][0], 1)) + ")") if ev else None, "true" if flag else "false"),
                    fn=b.path, construct="first-write", where=b.where(p.blocks[-1]), sample={"rule": "finalize-first", "method": m, "first": ev[0][3] if ev else None})
         ctx.floor("C03.finalize-first", "paths of %s" % m, n, 1)
+    # whoever records a new pending terminator on the result writer must first have flushed the previous one: a store to
+    # `self.last_end` in a QueryResultWriter method is preceded by finalize(..) on every path (otherwise the held-back
+    # EOF/OK of the preceding resultset is silently overwritten)
+    n_st = 0
+    for b in prog.find(r"^resultset::QueryResultWriter::<'a, W>::\w+$"):
+        if b.path == fin.path:
+            continue
+        for bb, i, s_ in b.stmts():
+            if s_["k"] != "assign" or not s_["lhs"]["p"] or s_["lhs"]["l"] != 1:
+                continue
+            fl = place_fields(s_["lhs"])
+            if fl != ["last_end"]:
+                continue
+            if s_["rv"]["k"] == "agg" and s_["rv"].get("vname") == "None":
+                continue
+            n_st += 1
+            bad = 1 if bb == 0 else 0      # in the entry block nothing can have been called before
+            for p in ([] if bb == 0 else enumerate_paths(b, stop_at={bb}, max_visits=1)):
+                if p.end != "stop":
+                    continue
+                if not any(cname(t["func"]) == fin.path for pos, blk, t in p.calls() if pos < len(p.blocks) - 1):
+                    bad += 1
+            ctx.ob("C03.finalize-first", bad == 0, "%s records a new pending terminator on %d path(s) without flushing the previous one first (finalize)" % (b.path.split("::")[-1], bad),
+                   fn=b.path, construct="last_end-store", where=b.where(bb, i))
+    ctx.floor("C03.finalize-first", "pending-terminator stores in QueryResultWriter methods", n_st, 1)
     for imp in prog.impls:
         if imp.get("trait_path") == "std::ops::Drop" and imp["self_ty"].startswith("resultset::QueryResultWriter<"):
             b = prog.bodies[imp["methods"][0]]
@@ -303,6 +335,11 @@ def run(ctx):
             ctx.ob("C03.shape-checks", ok, "binary cells are encoded against %s (need the successfully looked-up columns.get(col))" % term_str(col)[:100], fn=wc.path,
                    construct="bin-bound-check", where=wc.where(bb))
     ctx.floor("C03.shape-checks", "binary encode sites in write_col", n, 1)
+
+    # every outbound clause of this property presupposes a faithful framing layer (one transport write site that sends the
+    # whole pending packet, in order, with a correct header): C04's framing rules are evaluated here as well
+    import rules.C04 as C04
+    C04.run(ctx, configs=["tls"])
 
 
 def thorough():
